@@ -627,3 +627,162 @@ Proof.
 Qed.
 
 End Total.
+
+(* ====================================================================== the union, unconditionally *)
+From AV Require Import Tree.LoadProofsWalk Tree.MergePureProofsBase Tree.MergePureProofs Tree.MergePureProofsMain
+  Tree.MergePureProofsKeys Tree.LoadRefineGood.
+
+Section UnionTotal.
+Variable T : tables.
+Variables LATEST defref v : N.
+
+(* the (path, element name) pairs the views of the master register *)
+Definition view_names (M : mtree) (g : N) : list (list N * N) :=
+  match project g M with Some e => map (fun y => (fst (fst y), snd y)) (enames T [] [] e) | None => [] end.
+Definition all_names (M : mtree) (gs : list N) : list (list N * N) := flat_map (view_names M) gs.
+
+(* side condition on the master and the files: a path names elements of one kind only, and no view has a path twice *)
+Definition PathsOK (M : mtree) (gs : list N) : Prop :=
+  Functional (all_names M gs) /\ forall g e, In g gs -> project g M = Some e -> KeysNoDup T e.
+
+Definition item_ok (S : list (list N * N)) (M : mtree) (g : N) (it : item) : Prop :=
+  is_view v M g it /\ StOf T (snd it) (snd (fst it)) /\ NamesIn T S (snd (fst it)) /\ KeysNoDup T (snd (fst it)).
+
+Theorem heap_chain_total S M m : Good T defref v M -> Functional S ->
+  forall gs items F w ta,
+    Forall2 (item_ok S M) gs items ->
+    ModelTree w m ta (rev F) -> F <> [] -> Rep T F None M (erase ta) -> IdxNames S w m ->
+    NoDup (gs ++ F) -> (forall g, In g (gs ++ F) -> In g (mfiles M)) ->
+    gs = n_range (List.length gs) (N.of_nat (List.length (w_files w))) ->
+    (forall f, In f F -> fver_files (w_files w) f = Some v) ->
+    exists os w',
+      load_seq T LATEST defref m items w = Val (os, w') /\ Forall2 (fun g o => o = OK g) gs os /\
+      exists ta', ModelTree w' m ta' (rev F ++ gs) /\ Rep T (rev gs ++ F) None M (erase ta') /\ IdxNames S w' m.
+Proof.
+  intros HG HS. destruct (Good_files T defref v M HG) as (Hs & _).
+  induction gs as [|g gs IH]; intros items F w ta Hitems MT HFne HR HI Hnd Hin Hgs Hver.
+  - inversion Hitems; subst. exists [], w. cbn [load_seq]. split; [reflexivity|]. split; [constructor|].
+    exists ta. rewrite app_nil_r. cbn [rev app]. auto.
+  - inversion Hitems as [|? [[fname e] st] ? items' ((He & Hv) & Hst & HN & HK) Hitems']; subst. cbn [fst snd] in He, Hv, Hst, HN, HK.
+    cbn [load_seq].
+    assert (Hg : In g (mfiles M)) by (apply Hin; left; reflexivity).
+    cbn [app] in Hnd. inversion Hnd as [|? ? Hnot Hnd']; subst.
+    assert (HgF : ~ In g F) by (intros H; apply Hnot; apply in_or_app; right; exact H).
+    cbn [List.length n_range] in Hgs. injection Hgs as Eg Egs.
+    pose proof (pview_project (depth M) M (le_n _) g e He) as Eview.
+    set (fl := mkFile m fname (Parser.p_version st) (Parser.p_standalone st)) in *.
+    set (fver := fver_files (w_files w ++ [fl])).
+    assert (Hfv : forall f, In f (g :: F) -> fver f = Some v).
+    { intros f [<-|Hf]; unfold fver.
+      - rewrite Eg. rewrite fver_files_app_new. unfold fl. cbn [f_version]. rewrite Hv. reflexivity.
+      - rewrite fver_files_app_old; [apply Hver; exact Hf|]. eapply fver_files_some. apply Hver. exact Hf. }
+    assert (Hset : fold_right set_add [] (rev F) = inF F (mfiles M)).
+    { apply files_set_inF; [exact Hs|]. intros f Hf. apply Hin. right. apply in_or_app. right. exact Hf. }
+    pose (P := fun ha' : htree => h_local ha' = h_local (erase ta) /\
+                 forall inh', Rep T (g :: F) inh' M (h_set_local ha' (norm inh' (inF (g :: F) (mfiles M))))).
+    destruct (load_parsed_merge_total T LATEST defref S m fname e st w ta (rev F) P MT) as (w1 & EL & HI1 & Hf1 & ta1 & ha' & MT1 & Ee1 & (Hl & Hr)); auto.
+    { intros E. apply HFne. destruct F; [reflexivity|]. cbn [rev] in E. destruct (rev F); discriminate. }
+    { intros fuel Hfuel. fold fl. fold fver. rewrite Eview, Hset, <- Eg. split.
+      - apply (rep_clean T LATEST defref v fver fuel M HG F g None (erase ta) Hfv HgF Hg HR).
+      - destruct (pmerge_rep_gen T LATEST defref v fver fuel M HG F g None (erase ta)) as (a' & Ea' & Hla' & Hra'); auto.
+        { right. rewrite hdepth_erase. exact Hfuel. }
+        exists a'. split; [exact Ea'|]. split; assumption. }
+    rewrite EL.
+    destruct (Rep_shape T F None M (erase ta) HR) as (_ & _ & Hloc & _). cbn [norm] in Hloc.
+    specialize (Hr None). cbn [norm] in Hr. rewrite (inF_cons_in g F (mfiles M) Hs Hg HgF) in Hr.
+    assert (HR1 : Rep T (g :: F) None M (erase ta1)).
+    { rewrite Ee1, Hl, Hloc, <- Eg. exact Hr. }
+    fold fl in Hf1.
+    destruct (IH items' (g :: F) w1 ta1) as (os1 & w2 & EL2 & F2 & ta2 & MT2 & HR2 & HI2); auto.
+    + cbn [rev]. rewrite <- Eg in MT1. exact MT1.
+    + discriminate.
+    + apply NoDup_app_swap_cons. exact Hnd.
+    + intros g0 H0. apply Hin. apply in_app_or in H0 as [H0|[<-|H0]]; [right; apply in_or_app; left; exact H0|left; reflexivity|].
+      right. apply in_or_app. right. exact H0.
+    + rewrite Hf1, app_length. cbn [List.length]. rewrite Egs at 1. f_equal. lia.
+    + intros f [<-|Hf]; rewrite Hf1.
+      * rewrite Eg, fver_files_app_new. unfold fl. cbn [f_version]. rewrite Hv. reflexivity.
+      * rewrite fver_files_app_old; [apply Hver; exact Hf|]. eapply fver_files_some. apply Hver. exact Hf.
+    + rewrite EL2. exists (OK (N.of_nat (List.length (w_files w))) :: os1), w2. split; [reflexivity|].
+      split; [constructor; [rewrite Eg; reflexivity|exact F2]|].
+      exists ta2. cbn [rev] in MT2. rewrite <- app_assoc in MT2. cbn [app] in MT2. split; [exact MT2|].
+      split; [|exact HI2]. cbn [rev]. rewrite <- app_assoc. cbn [app]. exact HR2.
+Qed.
+
+
+Lemma names_in_all M gs g e : In g gs -> project g M = Some e -> NamesIn T (all_names M gs) e.
+Proof.
+  intros Hg He y Hy. unfold all_names. apply in_flat_map. exists g. split; [exact Hg|].
+  unfold view_names. rewrite He. apply (in_map (fun y => (fst (fst y), snd y))). exact Hy.
+Qed.
+
+(* every load of the sequence returns OK *)
+Theorem heap_seq_returns M m x w0 n items :
+  Good T defref v M ->
+  nth_opt (w_models w0) (N.to_nat m) = Some x -> m_files x = [] -> m_idents x = [] ->
+  let gs := n_range (S n) (N.of_nat (List.length (w_files w0))) in
+  Forall2 (fun g it => is_view v M g it /\ StOf T (snd it) (snd (fst it))) gs items ->
+  (forall g, In g gs -> In g (mfiles M)) -> PathsOK M gs ->
+  exists os w, load_seq T LATEST defref m items w0 = Val (os, w) /\ Forall2 (fun g o => o = OK g) gs os.
+Proof.
+  intros HG Hx Hfx Hix gs Hitems Hin (HS & HKeys).
+  set (SN := all_names M gs) in *.
+  assert (Haux : forall gs0 its, incl gs0 gs ->
+             Forall2 (fun g it => is_view v M g it /\ StOf T (snd it) (snd (fst it))) gs0 its -> Forall2 (item_ok SN M) gs0 its).
+  { intros gs0 its Hsub HF. induction HF as [|g it gs1 its1 ((He & Hv) & Hst) HF IH]; [constructor|]. constructor.
+    - split; [split; assumption|]. split; [exact Hst|]. split.
+      + apply (names_in_all M gs g _); [apply Hsub; left; reflexivity|exact He].
+      + apply (HKeys g _); [apply Hsub; left; reflexivity|exact He].
+    - apply IH. intros y Hy. apply Hsub. right. exact Hy. }
+  pose proof (Haux gs items (incl_refl _) Hitems) as Hitems'. clear Haux.
+  unfold gs in *. cbn [n_range] in *.
+  set (g0 := N.of_nat (List.length (w_files w0))) in *. set (gr := n_range n (g0 + 1)) in *.
+  inversion Hitems' as [|? [[fname e] st] ? items' ((He & Hv) & Hst & HN & HK) Hitems'']; subst. cbn [fst snd] in He, Hv, Hst, HN, HK.
+  cbn [load_seq].
+  assert (Hg0 : In g0 (mfiles M)) by (apply Hin; left; reflexivity).
+  assert (HI0 : IdxNames SN w0 m).
+  { exists x. split; [exact Hx|]. intros key e0 Hg. rewrite Hix in Hg. discriminate Hg. }
+  destruct (load_parsed_first_total T LATEST defref SN m fname e st w0 x Hx Hfx HI0 HS Hst HN HK)
+    as (w1 & EL & HI1 & Hf1 & ta1 & MT1 & Ee1).
+  fold g0 in EL, MT1, Ee1. rewrite EL.
+  pose proof (pview_project (depth M) M (le_n _) g0 e He) as Eview. rewrite Eview in Ee1.
+  assert (HR1 : Rep T [g0] None M (erase ta1)).
+  { rewrite Ee1. apply (first_view_rep T defref v M g0 HG Hg0). }
+  assert (Hnd : NoDup (gr ++ [g0])).
+  { eapply Permutation_NoDup; [apply Permutation_app_comm|]. cbn [app]. apply (n_range_nodup (S n) g0). }
+  destruct (heap_chain_total SN M m HG HS gr items' [g0] w1 ta1) as (os1 & w2 & EL2 & F2 & _); auto.
+  - discriminate.
+  - intros g Hg. apply Hin. apply in_app_or in Hg as [Hg|[<-|[]]]; [right; exact Hg|left; reflexivity].
+  - unfold gr at 1. rewrite Hf1, app_length. cbn [List.length]. f_equal.
+    + unfold gr. clear. generalize (g0 + 1). induction n as [|k IHk]; intros from; cbn [n_range List.length]; auto.
+    + fold g0. lia.
+  - intros f [<-|[]]. rewrite Hf1. unfold g0. rewrite fver_files_app_new. cbn [f_version]. exact (f_equal Some Hv).
+  - rewrite EL2. exists (OK g0 :: os1), w2. split; [reflexivity|]. constructor; [reflexivity|exact F2].
+Qed.
+
+(* C09 on the heap model, class Good, without conditions on the outcome of the loads: the views of a master whose paths
+   are consistent are all loaded (every load returns OK with its file id), and the model is the master *)
+Theorem heap_union_total M m x w0 n items :
+  Good T defref v M ->
+  nth_opt (w_models w0) (N.to_nat m) = Some x -> m_files x = [] -> m_idents x = [] ->
+  let gs := n_range (S n) (N.of_nat (List.length (w_files w0))) in
+  Forall2 (fun g it => is_view v M g it /\ StOf T (snd it) (snd (fst it))) gs items ->
+  (forall g, In g gs -> In g (mfiles M)) -> PathsOK M gs ->
+  exists os w,
+    load_seq T LATEST defref m items w0 = Val (os, w) /\ Forall2 (fun g o => o = OK g) gs os /\
+    exists ta, ModelTree w m ta gs /\ abs_model w m = Some (erase ta) /\
+               Rep T (rev gs) None M (erase ta) /\
+               (covers gs M -> hperm (erase ta) (expected None M)) /\
+               (forall f, In f gs -> hperm (hproj f (erase ta)) (pview f M)).
+Proof.
+  intros HG Hx Hfx Hix gs Hitems Hin HP.
+  destruct (heap_seq_returns M m x w0 n items HG Hx Hfx Hix Hitems Hin HP) as (os & w & EL & FO).
+  exists os, w. split; [exact EL|]. split; [exact FO|].
+  assert (Hitems1 : Forall2 (is_view v M) gs items).
+  { clear -Hitems. induction Hitems as [|g it gs1 its (H1 & _) HF IH]; constructor; auto. }
+  assert (Hov : Forall (fun o => o <> ER OverlappingDataError) os).
+  { clear -FO. induction FO as [|g o gs1 os1 -> HF IH]; constructor; [discriminate|exact IH]. }
+  destruct (heap_union_seq T LATEST defref v M m x w0 n items os w HG Hx Hfx Hitems1 Hin EL Hov) as (_ & Hta). exact Hta.
+Qed.
+
+End UnionTotal.
